@@ -45,7 +45,7 @@ class C03(Check):
                    'events after a boundary received on_error / on_completed are invisible to the subscriber (RxPY AutoDetachObserver) and are not judged']
     ANCHORS = ['rxsci/data/roll.py', 'rxsci/data/split.py', 'rxsci/data/time_split.py', 'rxsci/operators/group_by.py', 'rxsci/operators/tee_map.py',
                'rxsci/operators/multiplex.py', 'rxsci/state/with_store.py', 'rxsci/mux/muxobservable.py', 'rxsci/mux/muxconnectable.py']
-    REQUIRED_TAGS = ['depth>=3', 'empty-source', 'single-item', 'scale', 'several-streams-on-one-store', 'a-key-producing-operator-whose-function-raises', 'group_by-under-several-simultaneously-live-parents'] + ['history-fed-more-than-the-judged-stream'] + PRELUDE_TAGS
+    REQUIRED_TAGS = ['depth>=3', 'empty-source', 'single-item', 'scale', 'several-streams-on-one-store', 'a-key-producing-operator-whose-function-raises', 'group_by-under-several-simultaneously-live-parents', 'time_split-without-timestamps'] + ['history-fed-more-than-the-judged-stream'] + PRELUDE_TAGS
     REQUIRED_OBSERVED = ['boundary:' + k for k in KINDS] + ['events:create', 'events:next', 'events:completed', 'events:on_completed']
 
     def generate(self, rng, tier, shard, nshards):
@@ -85,6 +85,13 @@ class C03(Check):
                          ['group_by', 'mod:2', [['roll', w, rng.randint(1, w - 1), inner]]],
                          ['group_by', 'mod:3', [['time_split', {'active': rng.choice([3, 5]), 'inactive': None, 'closing': None, 'include': True}, inner]]]][(k // 40) % 4]
                 yield {'prog': [outer], 'items': gen.gen_items(rng, n=rng.choice([8, 16, 30]), hi=12, sorted_=True), 'overlapping_parents': True}
+                continue
+            if k % 40 == 34:
+                # time_split used for its closing mapper only: no timeout, a time mapper that returns None (records without a timestamp)
+                ts = ['time_split', {'active': None, 'inactive': None, 'closing': rng.choice(['modeq:3:0', 'modeq:2:1', 'true']), 'include': rng.random() < 0.5, 'time': 'tnone'},
+                      [rng.choice([['count', True], ['to_list'], ['identity']])]]
+                yield {'prog': [ts] if (k // 40) % 2 else [['group_by', 'mod:2', [ts]]], 'items': gen.gen_items(rng, n=rng.choice([1, 4, 9, 20]), hi=12, sorted_=True),
+                       'no_timestamps': True}
                 continue
             if k % 40 == 24:
                 # the user function of a KEY-PRODUCING operator raises on some records (a split field that is None on a leading
@@ -237,6 +244,8 @@ class C03(Check):
             out.fail('protocol:' + v['kind'], boundary=v['boundary'], key=v['key'], extra=v['extra'], event_index=v['event_index'],
                      n_violations=len(mon.violations), stream_error=repr(snap.err))
             return out
+        if case.get('no_timestamps'):
+            out.tags.append('time_split-without-timestamps')
         if case.get('overlapping_parents'):
             out.tags.append('group_by-under-several-simultaneously-live-parents')
         if case.get('faulty_ctx'):
